@@ -4,6 +4,7 @@ import EaselModel.Dsqdata.Loader
 import EaselModel.Dsqdata.Meta
 import EaselModel.Dsqdata.Format
 import EaselModel.Dsqdata.Smem
+import EaselModel.Dsqdata.PackMem
 import EaselModel.WorkQueue.Model
 import EaselModel.Threads.Model
 import EaselModel.Pipeline.Locks
@@ -248,6 +249,15 @@ def heldStr (ms : List Pipeline.Mutex) : String :=
   let toks := (ms.map mutexStr).foldl (fun acc t => (acc.filter (· < t)) ++ [t] ++ (acc.filter (fun x => !(x < t)))) []
   if toks.isEmpty then "-" else "+".intercalate toks
 
+/-- `dsqdata_pack5/2(dsq, n, (uint32_t *) dsq, &P)`: the byte-level in-place packer on the buffer the harness uses
+    (`max (n+2) (4·max 1 ⌈n/6⌉)` bytes, zero behind the closing sentinel), compared with the out-of-place packets -/
+def packInplace (amino : Bool) (d : List UInt8) : String :=
+  let n := d.length
+  let ipn := max (n + 2) (4 * max 1 ((n + 5) / 6))
+  match packMem amino (dsqBuffer d (List.replicate (ipn - (n + 2)) 0)) n with
+  | some (mem', P) => if P == (pk amino d).length && mem'.take (4 * P) == (pk amino d).flatMap enc32 then "same" else "diff"
+  | none => "fault"
+
 def pipeValidate (U C T : Nat) (i0s : List Nat) (evs : List String) : String := Id.run do
   -- How many chunk buffers the loader allows itself, and whether it prefers a recycled buffer to a new one, is a tuning
   -- policy, not part of the property: the model is parametric in `limit`, and the validator lets the observed run decide
@@ -467,8 +477,8 @@ def dsqrt (ws : List String) : String :=
   match arg? ws "abc", argNat? ws "maxseq", argNat? ws "maxpacket", arg? ws "names", arg? ws "descs", arg? ws "dsq" with
   | some abc, some maxseq0, some maxpacket0, some names, some descs, some dsq =>
     -- hook value 0 = the library's defaults (eslDSQDATA_CHUNK_MAXSEQ, eslDSQDATA_CHUNK_MAXPACKET)
-    let maxseq := if maxseq0 = 0 then 4096 else maxseq0
-    let maxpacket := if maxpacket0 = 0 then 262144 else maxpacket0
+    let maxseq := if maxseq0 = 0 then MAXSEQ else maxseq0
+    let maxpacket := if maxpacket0 = 0 then MAXPACKET else maxpacket0
     let names := hexList names
     let descs := hexList descs
     let ds := hexList dsq
@@ -477,7 +487,7 @@ def dsqrt (ws : List String) : String :=
     let taxids : List Int := if raw then (((arg? ws "taxids").getD "").splitOn ",").filterMap String.toInt? else []
     let amino := abc == "amino"
     -- esl_dsqdata_Write refuses sequences of 6 * eslDSQDATA_CHUNK_MAXPACKET residues or more (only the library writer)
-    if arg? ws "writer" != some "raw" && ds.any (fun d => d.length ≥ 6 * 262144) then "write-eunimplemented" else
+    if arg? ws "writer" != some "raw" && ds.any (fun d => d.length ≥ 6 * MAXPACKET) then "write-eunimplemented" else
     let packs := ds.map fun d => if amino then pack5 d else pack2 d
     let metas := (names.zip (accs.zip descs)).map fun (n, a, d) => n.length + 1 + a.length + 1 + d.length + 1 + 4
     let idx := indexOf ((packs.map List.length).zip metas) 0 0
@@ -520,11 +530,11 @@ def step' (st : S) (line : String) : S × String :=
   match ws with
   | "pack5" :: _ =>
     match argHex? ws "d" with
-    | some d => let p := pack5 d; (st, s!"ok P={p.length} psq={u32s p} inplace=same")
+    | some d => let p := pack5 d; (st, s!"ok P={p.length} psq={u32s p} inplace={packInplace true d}")
     | none => (st, "bad-op")
   | "pack2" :: _ =>
     match argHex? ws "d" with
-    | some d => let p := pack2 d; (st, s!"ok P={p.length} psq={u32s p} inplace=same")
+    | some d => let p := pack2 d; (st, s!"ok P={p.length} psq={u32s p} inplace={packInplace false d}")
     | none => (st, "bad-op")
   | "rt5" :: _ =>
     match argHex? ws "d" with
